@@ -6,6 +6,7 @@
                            path := decl|assign|compound|arg|global-scalar|static|incdec-var|incdec-elem1|return|return-from-elemN|elem1|
                                    elem1-compound|elemN|lit1|litN|global-arr|assign-from-elemN|assign-call|decl-call|decl-typedef|
                                    decl-typedef-ternary|const-global|static-assign|elem1-global|arrlit-assign1|arrlit-assignN|arr-copy|
+                                   member|member-generic|member-nested|deref|reference|
                                    assign-hint:H|decl-multi:H      H := none|ptr|tiny|short|int|long|char|bool (the type hint handed to
                                    VariableManager::assign_variable)
                            type := tiny|short|int|long|char|bool|utiny|ushort|uint|ulong|uchar
@@ -51,6 +52,7 @@ let rec path_of = function
   | "assign-call" -> PAssignCall | "decl-call" -> PDeclCall | "decl-typedef" -> PDeclTypedef
   | "decl-typedef-ternary" -> PDeclTypedefTernary | "const-global" -> PConstGlobal | "static-assign" -> PStaticAssign
   | "elem1-global" -> PElem1Global | "arrlit-assign1" -> PArrLitAssign1 | "arrlit-assignN" -> PArrLitAssignN | "arr-copy" -> PArrCopy
+  | "member" | "member-generic" -> PMember | "member-nested" | "deref" | "reference" -> PIndirect
   | "decl" -> PDecl | "assign" -> PAssign | "compound" -> PCompound | "arg" -> PArg | "global-scalar" -> PGlobalScalar
   | "static" -> PStatic | "incdec-var" -> PIncDecVar | "incdec-elem1" -> PIncDecElem1 | "return" -> PReturn
   | "return-from-elemN" -> PReturnElemN
